@@ -70,7 +70,7 @@ func freshFuncDecls(pkgs []*packages.Package) map[*types.Func]*ast.FuncDecl {
 		for _, f := range p.Syntax {
 			for _, d := range f.Decls {
 				fd, ok := d.(*ast.FuncDecl)
-				if !ok || fd.Body == nil || fd.Name.Name == "init" || fd.Name.Name == "main" {
+				if !ok || fd.Body == nil || (fd.Recv == nil && (fd.Name.Name == "init" || fd.Name.Name == "main")) {
 					continue
 				}
 				obj, _ := p.TypesInfo.Defs[fd.Name].(*types.Func)
